@@ -527,6 +527,7 @@ class ScalarExec:
         self.src, self.funcs, self.phi, self.qname = src, module_funcs, phi, qname
         self.binder, self.sumname = binder, sumname
         self.quad_r = None          # the argument of gauss_legendre_quad, once called
+        self.first = {}             # name -> term of its FIRST scalar binding (used to abstract shared subterms in proofs)
 
     def ev(self, e, env):
         if isinstance(e, ast.Name):
@@ -724,6 +725,9 @@ class ScalarExec:
     def assign(self, target, value, env, st):
         if isinstance(target, ast.Name):
             env[target.id] = self.ev(value, env)
+            v = env[target.id]
+            if not isinstance(v, tuple) and v.shape == "S" and target.id not in self.first:
+                self.first[target.id] = v.term
             return
         if isinstance(target, ast.Tuple):
             v = self.ev(value, env)
@@ -872,9 +876,12 @@ def kernel_regen(repo):
         raise Unsupported("bvn_cdf does not return / does not call gauss_legendre_quad")
     term = r[1].term.replace("(gauss_legendre_quad r)", "(gauss_legendre_quad %s)" % X.quad_r)
     defs.append("Definition src_bvn_cdf (Phi : R -> R) (x y mu_x mu_y sigma_xx sigma_yy sigma_xy : R) : R := %s." % term)
+    # the standardised coordinates and the correlation occur hundreds of times: they are abstracted (`set`) before the
+    # generic tactic runs, which only makes the goal smaller (the obligation is unchanged)
+    sets = " ".join("set (v_%s := %s)." % (n, X.first[n]) for n in ("dh", "dk", "r") if n in X.first)
     obls.append(("regen_bvn_cdf", "forall Phi x y mu_x mu_y sigma_xx sigma_yy sigma_xy, "
                  "src_bvn_cdf Phi x y mu_x mu_y sigma_xx sigma_yy sigma_xy = bvn_cdf Phi x y mu_x mu_y sigma_xx sigma_yy sigma_xy",
-                 "images_kernels.bvn_cdf", g.lineno))
+                 "images_kernels.bvn_cdf", g.lineno, "intros. autounfold with regen. cbv beta zeta. %s regen_node 40%%nat." % sets))
 
     return _scalar_text(defs, obls, "src_uniform src_sbvn_cdf src_bvn_cdf")
 
@@ -916,9 +923,11 @@ def weight_regen(repo):
 def _scalar_text(defs, obls, unfold):
     text = SCALAR_HEADER + "\n".join(defs) + "\n\n"
     text += "#[local] Hint Unfold %s : regen.\n" % unfold
-    for name, stmt, unit, line in obls:
-        text += "Lemma %s : %s.\nProof. regen_solve. Qed.\n" % (name, stmt)
-    return text, [(n, u, l) for n, _, u, l in obls]
+    for ob in obls:
+        name, stmt = ob[0], ob[1]
+        script = ob[4] if len(ob) > 4 else "regen_solve."
+        text += "Lemma %s : %s.\nProof. %s Qed.\n" % (name, stmt, script)
+    return text, [(ob[0], ob[2], ob[3]) for ob in obls]
 
 
 def scalar_regen(repo):
